@@ -3,7 +3,7 @@
    SigSafe.v, SigValues.v; Print Assumptions follows each. *)
 From Coq Require Import List NArith Bool.
 Import ListNotations.
-Require Import Util SigCore SigLemmas SigInv SigSafe SigSpec SigValues.
+Require Import Util SigCore SigLemmas SigInv SigSafe SigSpec SigValues SigExtra.
 Local Open Scope N_scope.
 
 Theorem C14_copy_shares : S_copy_shares.
@@ -29,3 +29,10 @@ Print Assumptions C14_other_handles_keep_list.
 Theorem C14_other_handles_keep_impl : S_other_handles_keep_impl.
 Proof. exact other_handles_keep_impl. Qed.
 Print Assumptions C14_other_handles_keep_impl.
+
+(* both handles of one list see the same slots, and emitting through either is the same computation *)
+Theorem C14_handles_share_list : S_handles_share_list.
+Proof. exact handles_share_list. Qed.
+Theorem C14_emission_through_either_handle : S_emission_through_either_handle.
+Proof. exact emission_through_either_handle. Qed.
+Print Assumptions C14_emission_through_either_handle.
